@@ -84,12 +84,11 @@ example : UAgrees (Update.step small [] g1 2 ["A", "B", "T"] createB) (Spec.appl
 
 /-! ### counterexamples: `C12_full` is false of the model (and of the engine: corpus/update/*.ops) -/
 
-/-- ON MATCH SET writes are not counted: `MERGE (m:A) ON MATCH SET m.j = 9` reports 0 -/
+/-- formerly a counterexample (ON MATCH SET writes were not counted), repaired by fix 9108f42 -/
 def sMergeSet : Stmt :=
   ⟨[], [.merge ⟨⟨some "m", ["A"], []⟩, []⟩ [] [.prop "m" "j" (.lit (.int 9))]]⟩
 
-theorem counterexample_merge_set_not_counted :
-    ¬ UAgrees (Update.step small [] g1 2 ["A", "B", "T"] sMergeSet) (Spec.apply small [] g1 2 sMergeSet) := by
+example : UAgrees (Update.step small [] g1 2 ["A", "B", "T"] sMergeSet) (Spec.apply small [] g1 2 sMergeSet) := by
   decide
 
 /-- a variable bound to null is taken for unbound: `MATCH (a) OPTIONAL MATCH (a)-[r]->(b) CREATE (a)-[:T]->(b)`
@@ -116,12 +115,12 @@ theorem counterexample_writes_against_snapshot :
     ¬ UAgrees (Update.step small [] gAB 3 ["A", "B"] sRemoveTwice) (Spec.apply small [] gAB 3 sRemoveTwice) := by
   decide
 
-/-- `MATCH (a) SET a:A` on a node that already has :A reports 1 change -/
+/-- formerly a counterexample (`MATCH (a) SET a:A` on a node that already has :A reported 1 change), repaired by
+    fix a3c5bfb -/
 def gA : Graph := ⟨[⟨0, ["A"], []⟩], []⟩
 def sLabelAgain : Stmt := ⟨[.match_ false [⟨⟨some "a", [], []⟩, []⟩]], [.set [.labels "a" ["A"]]]⟩
 
-theorem counterexample_label_count :
-    ¬ UAgrees (Update.step small [] gA 1 ["A"] sLabelAgain) (Spec.apply small [] gA 1 sLabelAgain) := by
+example : UAgrees (Update.step small [] gA 1 ["A"] sLabelAgain) (Spec.apply small [] gA 1 sLabelAgain) := by
   decide
 
 /-- relationship MERGE with unbound ends re-uses existing nodes: `MERGE (a:A)-[m:T]->(b:B)` over an unconnected
@@ -144,14 +143,23 @@ theorem counterexample_merge_stale_overlay :
     ¬ UAgrees (Update.step small [] ⟨[], []⟩ 0 [] sMergeStale) (Spec.apply small [] ⟨[], []⟩ 0 sMergeStale) := by
   decide
 
-/-- property items of a SET clause run before its map items: `MATCH (a) SET a = {j: 2}, a.k = 1` ends without k -/
+/-- formerly a counterexample (property items of a SET clause ran before its map items:
+    `MATCH (a) SET a = {j: 2}, a.k = 1` ended without k), repaired by fix 5723576 -/
 def gK : Graph := ⟨[⟨0, ["A"], [("k", .int 5)]⟩], []⟩
 def sReordered : Stmt :=
   ⟨[.match_ false [⟨⟨some "a", [], []⟩, []⟩]],
    [.set [.mapReplace "a" [("j", .lit (.int 2))], .prop "a" "k" (.lit (.int 1))]]⟩
 
-theorem counterexample_set_items_reordered :
-    ¬ UAgrees (Update.step small [] gK 1 ["A"] sReordered) (Spec.apply small [] gK 1 sReordered) := by
+example : UAgrees (Update.step small [] gK 1 ["A"] sReordered) (Spec.apply small [] gK 1 sReordered) := by
+  decide
+
+/-- what is left of it: the SET subclauses of a MERGE are still flattened into property / map / label lists:
+    `MERGE (m:C) ON CREATE SET m = {j: 2}, m.k = 1` ends without k -/
+def sMergeReordered : Stmt :=
+  ⟨[], [.merge ⟨⟨some "m", ["C"], []⟩, []⟩ [.mapReplace "m" [("j", .lit (.int 2))], .prop "m" "k" (.lit (.int 1))] []]⟩
+
+theorem counterexample_merge_set_items_reordered :
+    ¬ UAgrees (Update.step small [] ⟨[], []⟩ 0 [] sMergeReordered) (Spec.apply small [] ⟨[], []⟩ 0 sMergeReordered) := by
   decide
 
 /-- the property map of a deleted relationship identity survives in the store (`mult = 0` record) and is found
@@ -167,9 +175,20 @@ theorem counterexample_deleted_rel_props_resurrect :
       (Spec.apply small [] (Update.live gDead) 2 sRecreate) := by
   decide
 
+/-- ON MATCH is applied once per enumerated (direction, copy): an undirected MERGE over a self-loop applies and
+    counts it twice -/
+def gLoop : Graph := ⟨[⟨0, [], []⟩], [⟨⟨0, "U", 0⟩, 1, []⟩]⟩
+def sMergeLoop : Stmt :=
+  ⟨[.match_ false [⟨⟨some "a", [], []⟩, []⟩]],
+   [.merge ⟨⟨some "a", [], []⟩, [(⟨some "m", ["U"], .both, []⟩, ⟨some "a", [], []⟩)]⟩ [] [.prop "m" "j" (.lit (.int 1))]]⟩
+
+theorem counterexample_merge_match_multiplicity :
+    ¬ UAgrees (Update.step small [] gLoop 1 ["U"] sMergeLoop) (Spec.apply small [] gLoop 1 sMergeLoop) := by
+  decide
+
 /-- hence the full-strength statement fails -/
 theorem C12_full_false : ¬ C12_full := by
   intro h
-  exact counterexample_label_count (h small [] gA 1 ["A"] sLabelAgain (by decide) (by decide))
+  exact counterexample_writes_against_snapshot (h small [] gAB 3 ["A", "B"] sRemoveTwice (by decide) (by decide))
 
 end Nervus.Props.C12
